@@ -90,8 +90,9 @@ func c07NoInputMutation(ctx *Ctx, r *Report, eng *effectsEngine) {
 
 // (2) who may call Pass.Process directly
 var c07ProcessCallers = map[string]string{
-	"internal/ast/compiler.Passes.Process":    "the copying entry point: runs passes on the deep copy",
-	"internal/codegen.InputBase.filterSchema": "filters the schema just produced by this input's parser, before it is shared with anything",
+	"internal/ast/compiler.Passes.Process":             "the copying entry point: runs passes on the deep copy",
+	"internal/codegen.InputBase.filterSchema":          "filters the schema just produced by this input's parser, before it is shared with anything",
+	"internal/codegen.KindRegistryInput.filterSchemas": "filters the schemas just loaded for this registry (the local allSchemas of LoadSchemas), before they are shared with anything",
 }
 
 func c07WhoMayCall(ctx *Ctx, r *Report) {
@@ -832,6 +833,13 @@ func findCallbackState(ctx *Ctx) []capturedState {
 										}
 									}
 									lhsIdents[root] = true
+								}
+								// a plain store into a map or slice element (m[k] = v) writes the
+								// variable and does not read it, like the Set-style methods below
+								if ix, isIndex := ast.Unparen(l).(*ast.IndexExpr); isIndex && x.Tok == token.ASSIGN {
+									if id, isID := ast.Unparen(ix.X).(*ast.Ident); isID && id == root {
+										lhsIdents[root] = true
+									}
 								}
 							}
 						}
